@@ -311,6 +311,8 @@ func createJSONAndEvalFunctions(c *Config) {
 		MaxArgs:  1,
 		ArgTypes: []object.Type{object.STRING},
 		Help:     "filename (.gr)",
+		// File IO: a function calling save() or load() must run again each time, not be served from the cache.
+		DontCache: true,
 	}
 	if c.HasSave {
 		loadSaveFn.Name = "save"
